@@ -153,7 +153,12 @@ func (x *X) translate(fi *FuncInfo) {
 	}
 	name, line := posLine(x.fset, fi.decl.Pos())
 	fmt.Fprintf(&sb, "/-- %s:%d `%s` -/\n", name, line, fi.obj.FullName())
-	if fi.mayFail {
+	if fi.effectful && len(c.loopDefs) > 0 {
+		bad("loop inside a function that uses the environment")
+	}
+	if fi.effectful {
+		fmt.Fprintf(&sb, "def %s {σ : Type} (E : Env σ) %s : StateT σ R %s := do\n", fi.lean, strings.Join(header, " "), rt)
+	} else if fi.mayFail {
 		fmt.Fprintf(&sb, "def %s %s : R %s := do\n", fi.lean, strings.Join(header, " "), rt)
 	} else {
 		fmt.Fprintf(&sb, "def %s %s : %s := Id.run do\n", fi.lean, strings.Join(header, " "), rt)
@@ -427,6 +432,9 @@ func (c *fctx) assign(o *out, ind int, t *ast.AssignStmt) {
 		return
 	}
 	lhs, rhs := t.Lhs[0], t.Rhs[0]
+	if call, ok := rhs.(*ast.CallExpr); ok && isIgnorable(calleeFunc(c.info, call)) {
+		return // logging handle: never used by translated code
+	}
 	switch t.Tok {
 	case token.DEFINE, token.ASSIGN:
 		c.define(o, ind, lhs, c.expr(rhs), t.Tok == token.DEFINE)
